@@ -1727,7 +1727,10 @@ int sm2_z256_point_from_hex(SM2_Z256_POINT *P, const char *hex)
 	size_t len;
 	int ret;
 
-	hex_to_bytes(hex, 128, bytes, &len);
+	if (hex_to_bytes(hex, 128, bytes, &len) != 1) {
+		error_print();
+		return -1;
+	}
 	if ((ret = sm2_z256_point_from_bytes(P, bytes)) < 0) {
 		error_print();
 		return -1;
